@@ -4,7 +4,8 @@ from check import Prop
 class C41(Prop):
     pid = "C41"
     check_mod = "C41"
-    drivers = [dict(pkg="internal/protocols/tls", test="TestVerifC41")]
+    drivers = [dict(pkg="internal/protocols/tls", test="TestVerifC41"),
+               dict(pkg="internal/staticsources", test="TestVerifC41Sites", timeout=900)]
     n_quick = 800
     n_thorough = 40000
     shard = 500
